@@ -147,11 +147,17 @@ func nilArtefacts(h *hz.H, sp *enum.Space, c enum.Case, b bounds, d proto.Messag
 		fd := fs.Get(i)
 		isMsgList := fd.IsList() && fd.Kind() == protoreflect.MessageKind
 		isMsgMap := fd.IsMap() && fd.MapValue().Kind() == protoreflect.MessageKind
-		if !isMsgList && !isMsgMap {
+		isOneofMsg := fd.ContainingOneof() != nil && !fd.ContainingOneof().IsSynthetic() && fd.Kind() == protoreflect.MessageKind && d.ProtoReflect().WhichOneof(fd.ContainingOneof()) == nil
+		if !isMsgList && !isMsgMap && !isOneofMsg {
 			continue
 		}
 		g := enum.BuildGo(d.ProtoReflect())
-		if !enum.InjectNil(g, int(fd.Number())) {
+		if isOneofMsg {
+			// the member selected with nil inside its wrapper (&T_Member{}): encodes as tag + length 0
+			if !enum.InjectNilOneof(g, fd) {
+				continue
+			}
+		} else if !enum.InjectNil(g, int(fd.Number())) {
 			continue
 		}
 		var ref []byte
